@@ -585,3 +585,94 @@ func (s *SMT) preamble(body string) string {
 	}
 	return sb.String()
 }
+
+// splitIff rewrites an assumed fact  forall V :: L <==> (D1 || ... || Dn)  (L an application, typically a spec
+// predicate) into the equivalent facts
+//     forall V :: L ==> (D1 || ... || Dn)              triggered on L
+//     forall V' :: Dj' ==> L'                          one per disjunct, after the one-point rule: a conjunct v == e of Dj
+//                                                      with v in V and e free of V is substituted and v is dropped
+// so that every fact has a trigger that covers its own bound variables (a disjunct that does not mention all of V can
+// never be a trigger of the combined formula, and E-matching then never uses the <== direction for it).
+func splitIffFact(t *Term) []*Term {
+	if t.Op != "forall" || len(t.Args) != 1 {
+		return []*Term{t}
+	}
+	body := t.Args[0]
+	if body.Op != "=" || len(body.Args) != 2 || body.Args[0].Sort != SBool {
+		return []*Term{t}
+	}
+	L, R := body.Args[0], body.Args[1]
+	if len(L.Bound) > 0 || !isTriggerHead(L.Op) || len(L.Args) == 0 {
+		L, R = R, L
+	}
+	if len(L.Bound) > 0 || !isTriggerHead(L.Op) || len(L.Args) == 0 {
+		return []*Term{t}
+	}
+	bound := map[string]bool{}
+	for _, b := range t.Bound {
+		bound[b.Name] = true
+		if !mentions(L, b.Name) {
+			return []*Term{t}
+		}
+	}
+	var ds []*Term
+	var flat func(x *Term)
+	flat = func(x *Term) {
+		if x.Op == "or" && len(x.Bound) == 0 {
+			for _, a := range x.Args {
+				flat(a)
+			}
+			return
+		}
+		ds = append(ds, x)
+	}
+	flat(R)
+	var infer *FnCtx
+	// the original fact is kept (its own triggers keep working); the per-disjunct implications are added
+	out := []*Term{t}
+	if len(ds) < 2 {
+		return out
+	}
+	for _, d := range ds {
+		// conjuncts
+		var cs []*Term
+		if d.Op == "and" && len(d.Bound) == 0 {
+			cs = append(cs, d.Args...)
+		} else {
+			cs = []*Term{d}
+		}
+		m := map[string]*Term{}
+		var rest []*Term
+		for _, c := range cs {
+			if c.Op == "=" && len(c.Args) == 2 {
+				a, b := c.Args[0], c.Args[1]
+				if len(b.Args) == 0 && bound[b.Op] {
+					a, b = b, a
+				}
+				if len(a.Args) == 0 && bound[a.Op] && m[a.Op] == nil && !mentionsAny(b, bound) {
+					m[a.Op] = b
+					continue
+				}
+			}
+			rest = append(rest, c)
+		}
+		var bs []Bound
+		for _, b := range t.Bound {
+			if m[b.Name] == nil {
+				bs = append(bs, b)
+			}
+		}
+		ant := subst(mkAnd(rest...), m)
+		imp := mkImplies(ant, subst(L, m))
+		if len(bs) == 0 {
+			out = append(out, imp)
+			continue
+		}
+		pats := infer.inferPatterns(bs, ant)
+		if len(pats) == 0 {
+			pats = infer.inferPatterns(bs, imp)
+		}
+		out = append(out, mkForall(bs, imp, pats...))
+	}
+	return out
+}
